@@ -151,6 +151,7 @@ theorem nrdTooRecent_mono {c : Ctx} {t a : Tx} (hk : ∀ k ∈ t.kers, k ∈ a.k
 
 /-- `Pool::add_to_pool` fails for an entry with an NRD kernel that is too recent for the next block -/
 theorem addToPool_nrd_error {c : Ctx} {p : Pool} {e : Entry} {extra : Option Tx}
+    (hen : c.cfg.nrdEnabled = true)
     (h : nrdTooRecent c e.tx = true) : ∃ er, Pool.addToPool c p e extra = .error er := by
   unfold Pool.addToPool
   split
@@ -169,10 +170,19 @@ theorem addToPool_nrd_error {c : Ctx} {p : Pool} {e : Entry} {extra : Option Tx}
           · simp
           · split
             · simp
-            · simp [hn]
+            · simp [hn, hen]
       split
       · exact ⟨_, rfl⟩
       · rename_i hv; exact absurd hv this
+
+/-- a kernel that is too recent is an NRD kernel -/
+theorem hasNrd_of_nrdTooRecent {c : Ctx} {t : Tx} (h : nrdTooRecent c t = true) : t.hasNrd = true := by
+  unfold nrdTooRecent at h
+  unfold Tx.hasNrd
+  rw [List.any_eq_true] at h ⊢
+  obtain ⟨k, hk, hp⟩ := h
+  refine ⟨k, hk, ?_⟩
+  cases hker : k.ker <;> simp_all
 
 /-- an NRD kernel repeating an excess seen fewer than its relative height blocks before the NEXT
 block of the body head: refused, pool unchanged -/
@@ -189,6 +199,15 @@ theorem addCore_refuses_nrd {c : Ctx} {s : TxPool} (src : Src) (tx : Tx) (stem s
   simp only []
   split
   · exact ⟨_, rfl⟩
+  rename_i hvar
+  -- past `verify_kernel_variants` with an NRD kernel: the feature flag is on
+  have hen : c.cfg.nrdEnabled = true := by
+    cases hflag : c.cfg.nrdEnabled with
+    | true => rfl
+    | false =>
+      exfalso
+      have hh := hasNrd_of_nrdTooRecent hnrd
+      simp [verifyKernelVariants, hh, hflag] at hvar
   split
   · rename_i hacc
     cases hs : s.isAcceptable c entry.tx stem with
@@ -208,13 +227,13 @@ theorem addCore_refuses_nrd {c : Ctx} {s : TxPool} (src : Src) (tx : Tx) (stem s
   cases stem with
   | false =>
     simp only [Bool.false_eq_true, if_false]
-    obtain ⟨er, he⟩ := addToPool_nrd_error (p := s.txpool) (extra := none) hnrd
+    obtain ⟨er, he⟩ := addToPool_nrd_error (p := s.txpool) (extra := none) hen hnrd
     have : s.addToTxpool c entry = (s, some er) := by
       unfold TxPool.addToTxpool; rw [he]
     rw [this]; exact ⟨er, rfl⟩
   | true =>
     simp only [if_true]
-    obtain ⟨er, he⟩ := addToPool_nrd_error (p := s.stempool) (extra := extra) hnrd
+    obtain ⟨er, he⟩ := addToPool_nrd_error (p := s.stempool) (extra := extra) hen hnrd
     rw [he]; exact ⟨er, rfl⟩
 
 /-- a transaction without kernels (the empty transaction included) fails standalone validation -/
